@@ -492,6 +492,11 @@ func (c *Ctx) c15Assemble(stage *ssa.Function) {
 						empty = true
 					}
 				}
+				if mk, isMk := s2.Val.(*ssa.MakeSlice); isMk { // make([]byte, 0, n)
+					if l, isL := constInt(mk.Len); isL && l == 0 {
+						empty = true
+					}
+				}
 				if empty && b.Dominates(appStore.Block()) && b != appStore.Block() {
 					ok3 = true
 				}
@@ -509,6 +514,42 @@ func (c *Ctx) c15Assemble(stage *ssa.Function) {
 		st = report.Violated
 	}
 	R.Add("S.assemble", name+" / the body is emptied before it is assembled", c.P.RelPos(appStore.Pos()), st, "the chunks are appended to whatever an earlier completion assembled: a chunk resent after completion makes the file complete again and doubles its content")
+	// (4) the recorded chunks stay recorded: a chunk resent after completion re-runs the assembly, which reads all of them
+	{
+		var bad []string
+		n := 0
+		for _, fn := range c.RepoFuncs("attachment") {
+			for _, b := range fn.Blocks {
+				for _, ins := range b.Instrs {
+					switch x := ins.(type) {
+					case *ssa.Call:
+						if bi, isB := x.Call.Value.(*ssa.Builtin); isB && (bi.Name() == "delete" || bi.Name() == "clear") && len(x.Call.Args) >= 1 {
+							if _, f, isF := fieldLoad(x.Call.Args[0]); isF && (f == "OffsetDataRecord" || f == "OffsetRecord") {
+								bad = append(bad, fmt.Sprintf("%s(%s) at %s", bi.Name(), f, c.P.RelPos(x.Pos())))
+							}
+						}
+					case *ssa.Store:
+						if _, f, isF := fieldNameOfAddr(x.Addr); isF && (f == "OffsetDataRecord" || f == "OffsetRecord") {
+							n++
+							// only the construction of a Package (composite literal) may set the maps
+							if fa, isFA := x.Addr.(*ssa.FieldAddr); isFA {
+								if al, isAl := fa.X.(*ssa.Alloc); !isAl || al.Parent() != fn {
+									bad = append(bad, fmt.Sprintf("%s replaced at %s", f, c.P.RelPos(x.Pos())))
+								}
+							}
+						}
+					}
+				}
+			}
+		}
+		st := report.Discharged
+		d := ""
+		if len(bad) > 0 || n == 0 {
+			st = report.Violated
+			d = fmt.Sprintf("recorded chunks are removed or the record tables replaced outside the construction of a file's record (%v; %d constructions): an assembly that runs again - a chunk resent after completion - no longer sees every chunk, and the completed file is rebuilt from a part of it", bad, n)
+		}
+		R.Add("S.assemble", "Package.OffsetDataRecord / recorded chunks are never removed", "", st, d)
+	}
 }
 
 // c15ControlFrame: frame = [0, r+2) for the first-delimiter search result r >= 0.
@@ -723,23 +764,76 @@ func (c *Ctx) c15StreamHeaders() {
 					}
 				}
 			}
-			ok := false
-			for _, b := range hs.Blocks {
-				for _, ins := range b.Instrs {
-					if call, isC := ins.(*ssa.Call); isC {
-						if sc := call.Call.StaticCallee(); sc != nil && sc.String() == "bytes.HasPrefix" && call.Call.Args[0] == ssa.Value(hs.Params[1]) {
-							if bs, okb := constByteSlice(call.Call.Args[1]); okb && fmt.Sprintf("%x", bs) == sp.Marker {
-								ok = true
+			// semantic: HasStreamData(data) is true exactly when data begins with the 4 marker bytes. Interpreted for an
+			// arbitrary buffer; accepted forms: the result of bytes.HasPrefix(data, marker) itself, or constant results
+			// on paths whose condition pins the length and the big-endian reading of data[0:4] (any equivalent test)
+			ok := true
+			why := ""
+			var marker int64
+			fmt.Sscanf(sp.Marker, "%x", &marker)
+			var data *absint.Slice
+			hres := c.RunE1([]*ssa.Function{hs}, false, func(a *absint.Analyzer, f *ssa.Function, st *absint.State, args []absint.Term) {
+				data, _ = args[1].(*absint.Slice)
+			})
+			nRet := 0
+			for _, hr := range hres {
+				for _, ret := range hr.Rets {
+					nRet++
+					bv, isB := ret.Val.(*absint.Bool)
+					if !isB || data == nil {
+						ok, why = false, "the result of HasStreamData is not a boolean the analysis can read"
+						continue
+					}
+					u32 := hr.A.ReadUint(ret.St, data, absint.Const(0), 4, false)
+					switch hr.A.Render(bv) {
+					case "true":
+						if !(ret.St.Entails(absint.Con{L: data.Len.AddC(-4), Rel: absint.GE}) && ret.St.Entails(absint.Con{L: u32.AddC(-marker), Rel: absint.EQ})) {
+							ok, why = false, "HasStreamData answers true on a path where the buffer is not known to begin with the marker"
+						}
+					case "false":
+						s2 := ret.St.Clone()
+						s2.AssumeGE(data.Len.AddC(-4))
+						if s2.Feasible(absint.Con{L: u32.AddC(-marker), Rel: absint.EQ}) && ret.St.Feasible(absint.Con{L: data.Len.AddC(-4), Rel: absint.GE}) {
+							ok, why = false, "HasStreamData answers false on a path where the buffer may begin with the marker"
+						}
+					default:
+						// a comparison result returned as such: u32be(data[0:4]) == marker on a path that knows len >= 4
+						if ret.St.Entails(absint.Con{L: data.Len.AddC(-4), Rel: absint.GE}) && hr.A.BoolEquivalent(ret.St, bv, absint.Con{L: u32.AddC(-marker), Rel: absint.EQ}) {
+							continue
+						}
+						src := hr.A.BoolSource(bv)
+						good := src != nil && src.Fn == "bytes.HasPrefix" && src.X != nil && src.Y != nil && src.X.Base == data.Base && src.X.Off.Equal(data.Off) && src.X.Len.Equal(data.Len)
+						if good {
+							// the prefix operand: four constant bytes equal to the marker
+							good = ret.St.Entails(absint.Con{L: src.Y.Len.AddC(-4), Rel: absint.EQ})
+							elems, haveElems := constBytes(src.Y.Base.Elems)
+							for i := int64(0); good && i < 4; i++ {
+								want := (marker >> uint(8*(3-i))) & 0xff
+								if haveElems && src.Y.Off.IsConst() && int(src.Y.Off.C+i) < len(elems) {
+									good = elems[src.Y.Off.C+i] == want
+									continue
+								}
+								bt := hr.A.ByteAt(ret.St, src.Y, absint.Const(i))
+								if !ret.St.Entails(absint.Con{L: bt.AddC(-want), Rel: absint.EQ}) {
+									good = false
+								}
 							}
+						}
+						if !good {
+							ok, why = false, "the chunk test is neither bytes.HasPrefix(buffer, "+sp.Marker+") nor an equivalent test of the first four bytes: "+hr.A.Render(bv)
 						}
 					}
 				}
+			}
+			if nRet == 0 {
+				ok, why = false, "no return of HasStreamData analysed"
 			}
 			stt := report.Discharged
 			if !ok {
 				stt = report.Violated
 			}
-			R.Add("E3.stream-header", tn+" / chunk marker tested as a prefix of the pending buffer", c.P.RelPos(hs.Pos()), stt, "the chunk test is not bytes.HasPrefix(buffer, 30 31 63 64): a control frame or chunk body containing the marker would be taken for a chunk")
+			_ = why
+			R.Add("E3.stream-header", tn+" / chunk marker tested as a prefix of the pending buffer", c.P.RelPos(hs.Pos()), stt, why+" (a control frame or chunk body containing the marker elsewhere would be taken for a chunk, or a chunk would not be recognised)")
 		}
 	}
 }
